@@ -136,6 +136,36 @@ CHECKS["C17"] = dict(
     note="Trusted: AddressSanitizer + ub_checks as oracle. Cancellation reduced to a pre-cancelled flag; concurrent readers are free-running (not exhaustive); no TSan pass.",
 )
 
+
+# Additions made while the checks were strengthened against seeded changes (see DESIGN.md section 6).
+ADDENDA = {
+    "C04": "Each history is run twice: reading after every step and 'quiet' (reads only after the last step, every length 2..depth), because a read scrubs the stale copy it finds; the alphabet includes empty-metadata bulk load / overwrite / replace.",
+    "C20": "A dedicated query-result-cache section enumerates all histories of depth 5 (6) over five distinct queries, boundary-crossing inserts, overwrite, delete and drain for capacity {1,2} x two metrics.",
+    "C06": "Alphabet includes bulk loads that bypass the recent-write tier. Because a search that meets a stale mirror scrubs it, each history is replayed on three more fresh engines whose queries (k=1000 first) go through one entry point only (first-touch pass).",
+    "C07": "Histories start from the empty state and from two populated states. Part 4: the store-after-invalidate race — one searcher x one or two writers from populated states, every schedule with <= 2 (3) preemptions under the ksched scheduler; after join a repeated search served from the cache must be a valid fresh top-k of the engine's canonical store.",
+    "C08": "The catalogue has 24 operations incl. delete-by-filter / ids_for_metadata_filter through the index path and through the reference-matcher scan fallback, and delete by closure.",
+    "C09": "Tombstone-compaction family: a capacity-3 index that is full with a tombstone in slot 0, insert of a new id (runs compact_tombstones) racing delete / metadata update / overwrite / batch delete / snapshot in both thread orders with <= 2 preemptions; the live collection must equal the outcome of some serial order of the acknowledged writes, and strict recovery must reproduce it.",
+    "C13": "Server level: the REAL server binary (srvmc re-executed as kyrodb_server's main()) produces the directory over gRPC + SIGTERM, then is started on every single-fault copy (file x deletion / truncation to 0 and half / bit flip first, middle, last byte): it must exit before its port opens or serve exactly the pre-damage collection.",
+    "C14": "Request-shape section: every id list of length <= 3 over {1,2,3,absent} (all adjacent / non-adjacent repeat patterns) as BatchDelete(ids), BulkInsert and BulkLoadHnsw from every population of <= 3 documents with max_vectors = 3, followed by a refill that probes the limit.",
+    "C15": "14 structurally malformed filters are sent bare as BatchDelete{filter}: answered; refused => unchanged; accepted => only documents the engine's reference matcher selects are removed; census after restart equals the live one.",
+    "C16": "Data, deleted fillers and queries come from one pool (same distribution). The heavy-delete route is also measured BEFORE compaction with 30 / 45 / 60 % of the slots tombstoned (held to the 0.80 floor only).",
+    "C18": "On the one-step frontier (rows that are safe or violate exactly one condition) every single deviation of a remaining setting (65 deviations covering all other configuration fields, incl. http_host loopback / non-loopback) x three routes; every row additionally as environment overrides on top of the four configuration templates shipped in the repository. Server level: the REAL binary launched per (environment, violated condition) x route must exit non-zero before its port opens; safe baselines must start.",
+    "C19": "Concurrent clause: 342 programs (6 configurations x 3 warm-up prefixes x 19 thread shapes of 2-3 callers) on the real RateLimiter, every schedule with <= 2 (3) preemptions under ksched; after join admitted <= burst + rate x measured interval per tenant and globally, tokens left in every bucket equal capacity - admitted up to the refill the interval allows, and a refused call implies an exhausted budget.",
+}
+TECH_ADD = {
+    "C07": "; plus preemption-bounded exhaustive schedule exploration (ksched) of search || write for the store-after-invalidate race",
+    "C13": "; plus the same single-fault classes through the real server binary's start-up on directories the real server produced",
+    "C18": "; plus one-step remaining-setting deviations, shipped templates + environment route, and the real binary's exit status per violated condition",
+    "C19": "; plus preemption-bounded exhaustive schedule exploration (ksched) of 2-3 concurrent callers with exact budget accounting",
+    "C09": "; live collection checked against all serial orders of the acknowledged writes",
+}
+for _k, _v in ADDENDA.items():
+    CHECKS[_k]["text"] += " " + _v
+for _k, _v in TECH_ADD.items():
+    CHECKS[_k]["technique"] += _v
+CHECKS["C19"]["note"] = CHECKS["C19"]["note"].replace(" The concurrent clause is decided by schedmc (C19 concurrent section) once registered.", " The concurrent section runs on the real monotonic clock with bounds that use the measured interval.")
+CHECKS["C18"]["note"] = CHECKS["C18"]["note"].replace("The 'server refuses to start' clause is covered by the real server main() being `load(...)?; validate()?` (exercised by the srvmc real-binary slice when built).", "'Refuses to start' = the real binary exits non-zero before its gRPC port accepts a connection.")
+
 # properties not claimed (yet): id -> reason
 NOT_APPLICABLE = {}
 
@@ -143,7 +173,7 @@ ENGINES = {
     "seqmc": ("harness/seqmc", "exhaustive enumeration of operation histories x configuration grids on the real engine against reference models"),
     "crashmc": ("harness/crashmc", "exhaustive crash-point / power-loss / single-fault enumeration over file-system effect logs recorded by the kvshim LD_PRELOAD shim, recovered with the real engine"),
     "schedmc": ("harness/schedmc", "stateless preemption-bounded exploration of real engine threads under the ksched scheduler (parking_lot replaced by pl-shim)"),
-    "srvmc": ("harness/srvmc", "the real gRPC handlers compiled in-process (kyrodb_server.rs included as a module) driven by exhaustive RPC sequences"),
+    "srvmc": ("harness/srvmc", "the real gRPC handlers compiled in-process (kyrodb_server.rs included as a module) driven by exhaustive RPC sequences; re-executed with SRVMC_AS_SERVER=1 it is the real server binary for the C13/C18 server-level slices"),
     "membound": ("membound", "exhaustive kernel x length x offset grid and bounded index op sequences under AddressSanitizer"),
 }
 
